@@ -9,7 +9,7 @@ H18 = 64800 * NPS
 
 META = {
     "property": "C05",
-    "proof_modules": ["PyodaProofs.C05", "PyodaProofs.C05Resolvers", "PyodaProofs.C05StartOfDay", "PyodaProofs.C04Spec", "PyodaProofs.C04Zone"],
+    "proof_modules": ["PyodaProofs.C05", "PyodaProofs.C05Resolvers", "PyodaProofs.C05StartOfDay", "PyodaProofs.C04Spec", "PyodaProofs.C04Zone", "PyodaProofs.GenAgreeC05"],
     "drivers": ["drv_zone"],
     "theorems": [
         "Pyoda.C05.containsLocal_iff", "Pyoda.C05.mapLocal_sound", "Pyoda.C05.mapLocal_complete",
@@ -19,8 +19,33 @@ META = {
         "Pyoda.C05.mapLocal_intervals_valid", "Pyoda.C05.no_earlier_on_date", "Pyoda.C05.startOfDay_spec",
         "Pyoda.C05.single_first_last_spec", "Pyoda.C05.first_last_are_results", "Pyoda.C05.gap_transition_valid",
         "Pyoda.C05.resolveLocal_spec", "Pyoda.C05.strict_lenient_are_combinations",
+        # agreement of the definitions generated from the Python source (tools/py2lean.py) with the model
+        "Pyoda.GenAgree.C05.gen_ZoneInterval_rawStart_eq", "Pyoda.GenAgree.C05.gen_ZoneInterval_rawEnd_eq",
+        "Pyoda.GenAgree.C05.gen_ZoneInterval_wallOffset_eq", "Pyoda.GenAgree.C05.gen_ZoneInterval_savings_eq",
+        "Pyoda.GenAgree.C05.gen_ZoneInterval_hasStart_eq", "Pyoda.GenAgree.C05.gen_ZoneInterval_hasEnd_eq",
+        "Pyoda.GenAgree.C05.gen_ZoneInterval_start_eq", "Pyoda.GenAgree.C05.gen_ZoneInterval_end_eq",
+        "Pyoda.GenAgree.C05.gen_ZoneInterval_containsInstant_eq",
+        "Pyoda.GenAgree.C05.gen_ZoneInterval_containsLocal_eq",
+        "Pyoda.GenAgree.C05.gen_ZoneLocalMapping_earlyInterval_eq",
+        "Pyoda.GenAgree.C05.gen_ZoneLocalMapping_lateInterval_eq",
+        "Pyoda.GenAgree.C05.gen_Zone_getEarlierMatchingInterval_eq",
+        "Pyoda.GenAgree.C05.gen_Zone_getLaterMatchingInterval_eq",
+        "Pyoda.GenAgree.C05.gen_Zone_getIntervalBeforeGap_eq", "Pyoda.GenAgree.C05.gen_Zone_getIntervalAfterGap_eq",
+        "Pyoda.GenAgree.C05.gen_Zone_mapLocal_eq", "Pyoda.GenAgree.C05.gen_Precalc_loop_rel",
+        "Pyoda.GenAgree.C05.gen_Precalc_getZoneIntervalNoTail_eq",
+        "Pyoda.GenAgree.C05.gen_Precalc_getZoneIntervalNoTail_loop1_eq",
+        "Pyoda.GenAgree.C05.gen_Precalc_getZoneIntervalTail_loop1_eq",
+        "Pyoda.GenAgree.C05.gen_Precalc_getZoneIntervalTail_eq",
     ],
     "trusted_base": [
+        "translator tie (tools/py2lean.py; generated file lean/PyodaGen/C05.lean shared by C04 and C05, agreement in PyodaProofs/GenAgreeC05.lean): DateTimeZone.map_local and its four helpers "
+        "(__get_earlier/later_matching_interval with their walrus tests on optional intervals, __get_interval_before/after_gap), ZoneInterval's __contains__ / _contains / has_start / has_end / guarded start / end, "
+        "and _PrecalculatedDateTimeZone.get_zone_interval (tail dispatch with the memoised first tail interval, and the binary search as a fuel-recursive loop with an early return) are re-translated from the current source on every run and "
+        "proved equal to mapLocal / earlierMatching / laterMatching / intervalBeforeGap / intervalAfterGap / Precalc.search / Precalc.get of PyodaModel/Zone.lean (the search by a step-for-step relation with fuel 2^63 periods). "
+        "Trusted there: the translator's semantics (self-test of C03); the model's integer timeline as the representation of Instant / _LocalInstant / Duration / Offset objects (lean/PyodaGen/GlueC05.lean: comparisons, "
+        "instant - Duration.epsilon and _LocalInstant._minus as range-checked integer subtraction, _minus_zero_offset as the identity, _days_since_epoch as floor division by a day — object-level arithmetic is tied by GenAgreeC03), "
+        "ZoneInterval as the model's ZI with __local_start/__local_end = safe_plus of the bounds (what __init__ computes), ZoneLocalMapping._ctor keeping (early, late, count), the zone's own get_zone_interval and the tail zone's as abstract callees. "
+        "Outside the tie: ZoneLocalMapping.single/first/last and the resolvers (the model describes the instants of the returned ZonedDateTimes, the code builds them lazily), at_start_of_day, ZoneRecurrence / ZoneYearOffset",
         "theorems are over an abstract zone `get` satisfying Partition, Bounded (|wall| <= 18 h) and MinLen (finite intervals >= 36 h); C04 establishes these for the model of the bundled zones from evaluated decidable checks with soundness theorems: dataOK_gives_spec (zones without a recurring tail, check dataOK) and zoneOK_gives_spec (zones with a recurring tail, check zoneOK: stored periods, tail rules through year 9999, seam, 36 h minimum); both are evaluated by the compiled driver on every zone each run (counts in the evidence notes of C04)",
         "domain of the main theorems: local instants at least 18 h inside the ends of time; nearer the ends the model keeps the code's sentinel logic and is compared by correspondence only",
     ],
@@ -404,10 +429,71 @@ def _explore(ctx, keys):
                    nontrivial=lambda t, r: t[0] != "zone.def")
     ctx.check_cases("instant.roundtrip", rt_cases, roundtrip_case(zmap))
     ctx.note("ops", len(ops))
+    # the same local values in OTHER ORDERS on FRESH zone objects (the suite above asks the provider's shared objects in
+    # generation order): every answer is a pure function of (zone, local value), so the model replies are the same
+    from pyoda_time.time_zones._tzdb_date_time_zone_source import TzdbDateTimeZoneSource
+    src = TzdbDateTimeZoneSource.default
+    real = [(sid, rid) for sid, rid, _ in zs if rid is not None]
+    chosen = real if ctx.thorough else rng.sample(real, min(len(real), 40))
+    by_zone = {}
+    for o in ops:
+        t = o.split(" ")
+        if t[0] in ("zone.maplocal", "zone.resolve", "zone.startofday", "zone.resolvers"):
+            by_zone.setdefault(t[1], []).append(o)
+    for label in ("descending", "shuffled", "ascending+neighbour-periods"):
+        fresh = {sid: src.for_id(rid) for sid, rid in chosen}
+        oo = [Z.zone_def_line(sid, fresh[sid]) for sid, _ in chosen]
+        for sid, _ in chosen:
+            zo = list(by_zone.get(sid, []))
+            cap = 120 if label != "ascending+neighbour-periods" else 50
+            if not ctx.thorough and len(zo) > cap:
+                zo = rng.sample(zo, cap)
+            if label == "ascending+neighbour-periods":
+                # the zone-interval cache works in 32-day periods hashed into 512 slots: ask each local value AFTER values
+                # one period and one whole table (16384 days) earlier, in ascending order, so that neighbouring and
+                # colliding cache entries are already filled when the value near the transition is asked
+                extra = []
+                for o in zo:
+                    t = o.split(" ")
+                    for back in (32 * NPD, 31 * NPD, 16384 * NPD):
+                        l2 = int(t[2]) - back
+                        if MINI + H18 <= l2 <= MAXI - H18 and len(t) == 3:
+                            extra.append(f"zone.maplocal {t[1]} {l2}")
+                zo = zo + extra
+            zo.sort(key=lambda o: int(o.split(" ")[2]), reverse=(label == "descending"))
+            if label == "shuffled":
+                rng.shuffle(zo)
+            oo.extend(zo)
+        hist = {}
+        base_impl, base_oracle = impl_factory(fresh), oracle_factory(fresh)
+
+        def impl_h(t, _h=hist, _i=base_impl):
+            if t[0] != "zone.def":
+                _h.setdefault(t[1], []).append(" ".join(t))
+            return _i(t)
+
+        def oracle_h(t, _h=hist, _o=base_oracle):
+            f = _o(t)
+            if f and t[0] != "zone.def":
+                f = dict(f)
+                f["history"] = list(_h.get(t[1], []))[-300:]
+                f["what"] += f" [after {len(_h.get(t[1], []))} earlier queries on the same fresh zone object; the replay repeats them]"
+            return f
+        ctx.correspond("zone.maplocal.order." + label, oo, impl_h, oracle=oracle_h, nontrivial=lambda t, r: t[0] != "zone.def")
 
 
 def replay_op(op, failure):
     t = op.split(" ")
+    if t[0].startswith("zone.") and failure.get("history"):
+        from pyoda_time.time_zones._tzdb_date_time_zone_source import TzdbDateTimeZoneSource
+        zid = t[1]
+        rid = next((k for k in TzdbDateTimeZoneSource.default.canonical_id_map if Z.safe_id(k) == zid), zid)
+        z = TzdbDateTimeZoneSource.default.for_id(rid)
+        im = impl_factory({zid: z})
+        for h in failure["history"]:
+            if h != op:
+                guard(im, h.split(" "))
+        return oracle_factory({zid: z})(t)
     if t[0].startswith("zone."):
         zid = t[1]
         z = Z.tzdb()[zid] if not zid.startswith("fixed") else Z.P().DateTimeZone.for_offset(Z.P().Offset.from_seconds(int(zid[5:])))
